@@ -30,17 +30,24 @@ if not ok[0]:
 size = max(1, len(toks) // 2)
 while size >= 1:
     progress = True
-    while progress and len(toks) > 1:
+    rounds = 0
+    while progress and len(toks) > 1 and rounds < 6:
+        rounds += 1
         progress = False
-        cands = []
-        for i in range(0, len(toks), size):
-            cands.append(toks[:i] + toks[i + size:])
+        starts = list(range(0, len(toks), size))
+        cands = [toks[:i] + toks[i + size:] for i in starts]
         res, _ = rejects(["".join(c) for c in cands])
-        for c, r in zip(cands, res):
-            if r and len(c) < len(toks):
-                toks = c
-                progress = True
-                break
+        good = [i for i, r in zip(starts, res) if r]
+        if good:
+            # all successful removals at once; fall back to halves of them, then to the first one
+            trial = good
+            while trial:
+                keep = [t for j, t in enumerate(toks) if not any(i <= j < i + size for i in trial)]
+                if rejects(["".join(keep)])[0][0]:
+                    toks = keep
+                    progress = True
+                    break
+                trial = trial[:len(trial) // 2]
         sys.stderr.write("size %d tokens %d\n" % (size, len(toks)))
     size //= 2
 final = "".join(toks)
